@@ -42,7 +42,7 @@ def stage(workdir: str, extra_modules: dict[str, str] | None = None) -> None:
 
 
 def run(workdir: str, module: str, cfg: str, *, workers: int = 1, env: dict | None = None,
-        args: list[str] | None = None, timeout: int = 3600, heap: str = "4g") -> str:
+        args: list[str] | None = None, timeout: int = 1500, heap: str = "4g") -> str:
     """Run TLC; returns stdout+stderr. Raises TLCError on a machinery failure."""
     meta = tempfile.mkdtemp(prefix="meta-", dir=workdir)
     cmd = ["java", f"-Xmx{heap}", "-XX:+UseParallelGC", "-cp", _classpath(), "tlc2.TLC",
